@@ -203,6 +203,18 @@ def run_case(case, ctx):
                 x_arg = [int(v) for v in x] if int_x else x.astype(np.float32) if f32_x else _as_given(x, case, ctx)
                 x_then = np.array(x_arg, copy=True) if isinstance(x_arg, np.ndarray) else None
                 jobj = nd.Jacobian(f, **kw)
+                if case['seed'] % 4 == 1 and 'order' in kw:
+                    # history: the object was built for, and has served, another order (on the other side of 4) before the order of
+                    # this case was assigned to it
+                    alt_order = {1: 4, 2: 4, 3: 6}.get(int(kw['order']), 2)
+                    ctx.count('object_served_another_order_before')
+                    jobj = nd.Jacobian(f, **dict(kw, order=alt_order))
+                    try:
+                        jobj(np.array(x, dtype=float))
+                    except Exception:
+                        pass
+                    jobj.order = kw['order']
+                    D._OBS.clear()
                 if x_then is not None and x_arg.dtype == np.float64 and case['seed'] % 3 == 0:
                     # history: the same object was called before with this very array, holding another point then (the caller
                     # updates its state vector in place between the calls)
